@@ -154,6 +154,13 @@ def draw_history(cs, cfg):
         fam = 1 if sc["family"] == 1 else 0
         sc["F"] = C10.draw_functional(cs, {"family": fam, "kind": sc["kind"], "composite": sc["composite"]})
     sc["usage"] = ["fwd", "bwd", "bwd2"][cs.weighted([1, 2, 2], "usage")]
+    # second-order usage through the accumulating API: the last pass is loss.backward(create_graph=True), which
+    # stores a gradient with history on every leaf of the graph; the caller then clears .grad of every leaf it
+    # owns (linear-operator family only: there every leaf of the call is one the harness holds)
+    sc["accumulate"] = sc["family"] == 1 and sc["usage"] == "bwd2" and cs.bool("accumulate", 1, 2)
+    if sc["accumulate"] and sc["rgb"]:
+        # an operator tensor that does not require grad next to ones that do is the interesting mix here
+        sc["rgb"] = not cs.bool("b_nograd_acc", 1, 2)
     # a usually-successful internal call fails once per call: the k-th torch.linalg.solve of every call raises
     # a LAPACK error (xitorch retries with a regularised matrix where it expects singular systems)
     sc["linalg_fault"] = 0
@@ -233,8 +240,18 @@ def _one_call_body(sc, env):
             gs = [x for x in g if x is not None and x.requires_grad]
             if gs:
                 l2 = sum((x * x).sum() for x in gs)
-                g2 = torch.autograd.grad(l2, leaves, allow_unused=True, retain_graph=True)
-                keep.append(g2)
+                if sc.get("accumulate"):
+                    with warnings.catch_warnings():
+                        warnings.simplefilter("ignore")
+                        l2.backward(create_graph=True, retain_graph=True)
+                    # the caller takes the accumulated gradients and resets .grad of every leaf it owns
+                    keep.append([x.grad for x in leaves])
+                    for x in leaves:
+                        x.grad = None
+                    SIM.count("reach.second_order_accumulating_backward")
+                else:
+                    g2 = torch.autograd.grad(l2, leaves, allow_unused=True, retain_graph=True)
+                    keep.append(g2)
     return keep, bool(loss.requires_grad)
 
 
@@ -251,7 +268,7 @@ def run(cs, cfg):
     F = sc["F"]
     label = (F["F"], str(F.get("method", F.get("product", F.get("limits", "")))))
     kind = C10.kind_label(sc) if sc["family"] != 2 else "grid"
-    decoded = {"functional": label, "kind": kind, "fkind": sc["fkind"], "usage": sc["usage"], "debug_mode": sc.get("debug_on"),
+    decoded = {"functional": label, "kind": kind, "fkind": sc["fkind"], "usage": sc["usage"] + ("+accumulate" if sc.get("accumulate") else ""), "debug_mode": sc.get("debug_on"),
                "persistent_object": sc["persist"], "result_cached_on_object": bool(sc.get("cache_on_object")), "cycle_len": sc["cycle_len"], "release_order": sc["release"],
                "n": sc["n"]}
     from xitorch.debug.modes import set_debug_mode
@@ -313,7 +330,7 @@ def run(cs, cfg):
         if grow3:
             new = describe_new(idsets[1])
             per_call = min(x for x in post if x > 0) / float(sc["cycle_len"])
-            viol.append({"sig": {"inv": "tensor_growth", "functional": label[0], "usage": sc["usage"],
+            viol.append({"sig": {"inv": "tensor_growth", "functional": label[0], "usage": sc["usage"] + ("+accumulate" if sc.get("accumulate") else ""),
                                  "adaptive": str(label[1] in ("rk23", "rk45")), "debug": str(bool(sc.get("debug_on"))),
                                  "cache": str(bool(sc.get("cache_on_object")))},
                          "detail": "live tensor count grows every cycle with the cyclic GC disabled: counts=%s "
@@ -329,7 +346,7 @@ def run(cs, cfg):
         decoded["new_survivors_per_cycle"] = newborn
         pn = newborn[2:] if len(newborn) > 4 else newborn[1:]
         if not grow3 and any(all(x > 0 for x in pn[i:i + 3]) for i in range(0, max(len(pn) - 2, 0))):
-            viol.append({"sig": {"inv": "per_call_retention", "functional": label[0], "usage": sc["usage"],
+            viol.append({"sig": {"inv": "per_call_retention", "functional": label[0], "usage": sc["usage"] + ("+accumulate" if sc.get("accumulate") else ""),
                                  "adaptive": str(label[1] in ("rk23", "rk45")), "debug": str(bool(sc.get("debug_on"))),
                                  "cache": str(bool(sc.get("cache_on_object")))},
                          "detail": "after every cycle some tensors allocated during that cycle are still alive once all "
